@@ -345,6 +345,13 @@ def run(prog, rep, tier):
             continue
         succ = success_blocks(body)
         fl = [b.idx for b in body.calls() if b.term.cmethod in ('flush', 'into_inner', 'into_parts') and any(x in cnorm(b.term) + b.term.callee.get('self_ty', '') for x in ('BufWriter', 'LineWriter'))]
+        # a flush inside a `for w in map.values_mut()` loop: reaching the loop's iterator step counts (an empty map holds no buffer either)
+        loops = body.loop_blocks()
+        for f in list(fl):
+            if f in loops:
+                for nb in body.calls():
+                    if nb.term.cmethod == 'next' and nb.term.ctrait == 'std::iter::Iterator' and nb.idx in loops and body.dominates(nb.idx, f) and nb.idx in body.reachable(f):
+                        fl.append(nb.idx)
         for c in mk:
             nbuf += 1
             rep.fn(body)
